@@ -13,6 +13,13 @@
            | A alias n name… Plan            the sub-plan seen under a table alias (n > 0: columns renamed)
            | E nt (name k nc col…)* nf (name k nc col…)* Plan    session: temporary tables / files by name
            | W name nc col… Plan(def) Plan(body)                 common table expression
+           | WR name nc col… A|U limit Plan(anchor) Plan(step) Plan(body)
+                                             recursive common table expression (UNION ALL | UNION, --limit-recursion):
+                                             inside the anchor `N name` is what the name denoted before (an outer CTE,
+                                             a temporary table, a file); inside the step - at ANY depth: FROM list,
+                                             derived tables, LATERAL, sub-queries evaluated per record - it is the
+                                             working view (the records of the previous iteration); in the body it is
+                                             the finished table
            | N name                          a FROM name to be resolved: CTE over temporary table over file
            | QS n Plan… Plan Where Sel       a query with n numbered sub-queries used inside its WHERE / select list
                                              (each evaluated anew for every record, the record in scope: correlation)
@@ -76,6 +83,7 @@ inductive Plan
   | alias (a : String) (names : List String) (p : Plan)
   | session (temps files : List NamedTbl) (p : Plan)
   | withC (name : String) (cols : List String) (defn body : Plan)
+  | recCte (name : String) (cols : List String) (distinct : Bool) (limit : Nat) (anchor step body : Plan)
   | named (name : String)
 
 abbrev P (α : Type) := List String → Option (α × List String)
@@ -324,6 +332,21 @@ def pPlan (vals : Array Profile) : Nat → P Plan
         let (b, ts) ← pPlan vals f ts
         pure (.withC name cols d b, ts)
       | [] => none
+    | "WR" =>
+      match ts with
+      | name :: ts => do
+        let (nc, ts) ← pNat ts
+        let (cols, ts) ← pNames nc ts
+        match ts with
+        | o :: ts => do
+          let distinct ← (match o with | "A" => some false | "U" => some true | _ => none)
+          let (limit, ts) ← pNat ts
+          let (a, ts) ← pPlan vals f ts
+          let (s, ts) ← pPlan vals f ts
+          let (b, ts) ← pPlan vals f ts
+          pure (.recCte name cols distinct limit a s b, ts)
+        | [] => none
+      | [] => none
     | "N" =>
       match ts with
       | name :: ts => some (.named name, ts)
@@ -414,6 +437,10 @@ structure Env where
   temps : List NamedTbl := []
   files : List NamedTbl := []
   outer : List (Hdr × Row) := []     -- records of the enclosing queries, innermost first
+  -- the recursive CTE whose step is being evaluated (RecursiveTable with RecursiveTmpView set): `gen` is its working
+  -- view.  Like the Go scope constructors (createScope / CreateNode / CreateChild) every derived environment
+  -- (`{ env with outer := … }`, `{ env with ctes := … }`) inherits both fields unchanged.
+  recName : Option String := none
 
 def anonHdr (n : Nat) : Hdr := List.replicate n { view := "", name := "", isJoin := false }
 
@@ -453,6 +480,15 @@ def lookupNamed (n : String) : List NamedTbl → Option NamedTbl
 def lookupCte (n : String) : List (String × (Hdr × List Row)) → Option (Hdr × List Row)
   | [] => none
   | t :: ts => if eqFold t.1 n then some t.2 else lookupCte n ts
+
+/-- the first error a step raises, the steps evaluated one after the other as `selectSetForRecursion` does
+    (`fuel` = --limit-recursion; an empty step ends the recursion) -/
+def firstStepErr (stepE : List Row → Except String (List Row)) : Nat → List Row → Option String
+  | 0, _ => none
+  | f + 1, g =>
+    match stepE g with
+    | .error e => some e
+    | .ok r => if r.isEmpty then none else firstStepErr stepE f r
 
 def renameHdr (names : List String) (h : Hdr) : Except String Hdr :=
   if names.isEmpty then .ok h
@@ -650,8 +686,27 @@ def eval : Nat → Env → Plan → Except String (Hdr × List Row)
     let (h, rows) ← eval fuel env defn
     let h ← renameHdr cols h
     eval fuel { env with ctes := (name, (aliasHeader name h, rows)) :: env.ctes } body
+  | .recCte name cols distinct limit anchor stepP body => do
+    -- InlineTableMap.Set + selectSetForRecursion: the anchor sees the name as it was (RecursiveTmpView = nil);
+    -- every step sees the records of the step before under the name (header: the upper-cased name, the column list)
+    let (ah, a) ← eval fuel env anchor
+    let h0 ← renameHdr cols ah
+    let wh := aliasHeader name.toUpper h0
+    let stepE : List Row → Except String (List Row) := fun g => do
+      let (sh, rows) ← eval fuel { env with recName := some name, gen := (wh, g) } stepP
+      if sh.length ≠ ah.length then throw "ESETW" else pure rows
+    match firstStepErr stepE limit a with
+    | some e => throw e
+    | none =>
+      let step : List Row → List Row := fun g => match stepE g with | .ok r => r | .error _ => []
+      let res := if distinct then recursiveUnionImpl (fun (r : Row) => r.map norm) step limit a
+                 else recursiveImpl step limit a
+      match res with
+      | none => throw "ERR"
+      | some out => eval fuel { env with ctes := (name, (aliasHeader name h0, out)) :: env.ctes } body
   | .named n =>
-    match tableKind none (env.ctes.map (fun c => c.1)) (env.temps.map (fun t => t.1)) n with
+    match tableKind env.recName (env.ctes.map (fun c => c.1)) (env.temps.map (fun t => t.1)) n with
+    | .recursive => pure env.gen
     | .cte => optE (lookupCte n env.ctes)
     | .temp => do
       let (_, k, cols) ← optE (lookupNamed n env.temps)
